@@ -90,18 +90,18 @@ theorem cElifsA_c : ∀ (es : Elifs) (lb : Nat), cgElifs lv es = true → ∀ (e
     obtain ⟨rfl, rfl⟩ := h3
     obtain ⟨e1, ea⟩ := elifAOf_c cx fuel env neg hdrs body (hdrsOK_of_all hdrs hg.1.1) (cStmts_c body lb hg.1.2 env he) E s0 hst h1
     obtain ⟨e2, er⟩ := cElifsA_c r _ hg.2 env he E s0 _ _ _ (hst.trans e1) h2
-    exact ⟨e1.trans e2, .cons ea er⟩
+    exact ⟨e1.trans e2, .cons (ea.mono e2.3) er⟩
 
 theorem cElifsB_c : ∀ (es : Elifs) (lb : Nat), cgElifs lv es = true → ∀ (env : Src.Env), EnvOK cx env →
     EBC cx fuel env (synOf es) (cElifsB [] lb es)
   | .nil, lb, _, env, he => by
-    intro E s0 as hall s late s' _ h
+    intro E s0 sA as hall s late s' _ _ h
     cases hall
     simp only [cElifsB, pure_ok, Prod.mk.injEq] at h
     obtain ⟨rfl, rfl⟩ := h
-    exact ⟨SameStk.refl _, [], rfl, fun d hd => by simp at hd, fun d hd => by simp at hd, rfl, rfl⟩
+    exact ⟨SameStk.refl _, [], rfl, fun d hd => by simp at hd, fun d hd => by simp at hd, fun d hd => by simp at hd, rfl, rfl⟩
   | .cons neg hdrs body r, lb, hg, env, he => by
-    intro E s0 as hall s late s' hst h
+    intro E s0 sA as hall s late s' hst hleA h
     simp only [cgElifs, Bool.and_eq_true] at hg
     cases hall with
     | @cons y a ys as' ha hrest =>
@@ -109,9 +109,9 @@ theorem cElifsB_c : ∀ (es : Elifs) (lb : Nat), cgElifs lv es = true → ∀ (e
       obtain ⟨blk, s1, h1, rest, s2, h2, h3⟩ := h
       simp only [Prod.mk.injEq] at h3
       obtain ⟨rfl, rfl⟩ := h3
-      obtain ⟨e1, br, nh, nb⟩ := elifBOf_c cx fuel env ⟨neg, hdrs, body⟩ (cStmts_c body lb hg.1.2 env he) E s0 ha hst h1
-      obtain ⟨e2, ds, hsyn, hbrs, hnns, hf, hbk⟩ := cElifsB_c r _ hg.2 env he E s0 as' hrest _ _ _ (hst.trans e1) h2
-      refine ⟨e1.trans e2, ⟨neg, hdrs, body, blk.hdrs, patchNone E blk.items⟩ :: ds, by simp [BrD.syn, hsyn, synOf], ?_, ?_, ?_, ?_⟩
+      obtain ⟨e1, sB, hsB, br, nh, nb⟩ := elifBOf_c cx fuel env ⟨neg, hdrs, body⟩ (cStmts_c body lb hg.1.2 env he) E s0 ha hst hleA h1
+      obtain ⟨e2, ds, hsyn, hbrs, hnns, hles, hf, hbk⟩ := cElifsB_c r _ hg.2 env he E s0 sA as' hrest _ _ _ (hst.trans e1) (hleA.trans e1.3) h2
+      refine ⟨e1.trans e2, ⟨neg, hdrs, body, blk.hdrs, patchNone E blk.items, sB⟩ :: ds, by simp [BrD.syn, hsyn, synOf], ?_, ?_, ?_, ?_, ?_⟩
       · intro d hd
         simp only [List.mem_cons] at hd
         rcases hd with rfl | hd
@@ -122,6 +122,11 @@ theorem cElifsB_c : ∀ (es : Elifs) (lb : Nat), cgElifs lv es = true → ∀ (e
         rcases hd with rfl | hd
         · exact ⟨nh, nb⟩
         · exact hnns d hd
+      · intro d hd
+        simp only [List.mem_cons] at hd
+        rcases hd with rfl | hd
+        · exact hsB.trans e2.3
+        · exact hles d hd
       · have hn : a.neg = neg := ha.1
         simp only [elifsFront, frontOf, patchNone_append, patchNone_id _ _ nh, patchNone_if, hf, hn]
       · have hn : a.neg = neg := ha.1
@@ -136,7 +141,7 @@ theorem cCases_c : ∀ (cs : Cases) (lb : Nat) (sw : String), cgCases lv sw cs =
     refine ⟨SameStk.refl _, id, [], [], by simp, by simp, fun x hx => by simp at hx, fun x hx => by simp at hx, fun hw => ?_⟩
     rw [hw]
     simp only [wSrc, toSrcCases]
-    exact sw_nil cx fuel env endL _ _ _
+    exact sw_nil cx fuel env endL _ _ _ _
   | .cons true n ps body r, lb, sw, hg => by
     intro env he endL bps st s st' s' hb hw hnd h
     simp only [cgCases, Bool.and_eq_true, Bool.not_eq_true'] at hg
@@ -166,7 +171,7 @@ theorem cCases_c : ∀ (cs : Cases) (lb : Nat) (sw : String), cgCases lv sw cs =
       simpa [SwSt.wait, wSrc_append, wSrc, toSrcCases, toSrcStmts] using this
     | cons b0 br =>
       simp only [Stmts.isNil] at h1
-      obtain ⟨e1, hw1, hs, d1, sL, eB, ops, sa, sb, n0, hH1, hC1, hD1, ws, hP, la, ca⟩ :=
+      obtain ⟨e1, hw1, hs, d1, sL, eB, ops, sa, sb, n0, hH1, hC1, hD1, ws, hP, la, ca, hsb⟩ :=
         defaultStep_c cx fuel endL (.cons b0 br) (cStmts_ret lv _ lb hg.1.2 hg.1.1.2)
           (fun env' he' => cStmts_c (.cons b0 br) lb hg.1.2 env' he') hw h1
       obtain ⟨e2, nnD, Hr, Cr, hH2, hC2, n1, n2, hsem⟩ := cCases_c r _ sw hg.2 env he endL bps st1 s1 st' s' hb
@@ -179,7 +184,8 @@ theorem cCases_c : ∀ (cs : Cases) (lb : Nat) (sw : String), cgCases lv sw cs =
       rw [hw1, hD1] at hR
       simp only [wSrc] at hR
       simp only [toSrcCases]
-      exact sw_default cx fuel env he endL s.loops s.cases st.waiting hs st.defaultOps d1 sL eB ops sa sb (.cons b0 br) n0 hP la ca ws hR
+      exact sw_default cx fuel env he endL s.loops s.cases st.waiting hs st.defaultOps d1 sL eB ops sa sb (.cons b0 br) n0 hP la ca ws
+        (hsb.trans e2.3) hR
         (fun k nt b => trCases_nodefault fuel (brkEnv env k) he.1 sw r k nt b (countDefaults_zero r hcr))
   | .cons false n ps body r, lb, sw, hg => by
     intro env he endL bps st s st' s' hb hw hnd h
@@ -217,7 +223,7 @@ theorem cCases_c : ∀ (cs : Cases) (lb : Nat) (sw : String), cgCases lv sw cs =
       simpa [SwSt.wait, wSrc_append, wSrc, toSrcCases, toSrcStmts, caseName, hbn, hbp] using this
     | cons b0 br =>
       simp only [Stmts.isNil] at h1
-      obtain ⟨e1, hw1, hs, d1, sL, eB, ops, sa, sb, n0, hH1, hC1, hD1, ws, hP, la, ca⟩ :=
+      obtain ⟨e1, hw1, hs, d1, sL, eB, ops, sa, sb, n0, hH1, hC1, hD1, ws, hP, la, ca, hsb⟩ :=
         caseStep_c cx fuel endL bp hbpos (.cons b0 br) (cStmts_ret lv _ lb hg.1.2 hg.1.1.2)
           (fun env' he' => cStmts_c (.cons b0 br) lb hg.1.2 env' he') hw h1
       have hcr : hasNone st.waiting = true → countDefaults r = 0 := by
@@ -235,7 +241,8 @@ theorem cCases_c : ∀ (cs : Cases) (lb : Nat) (sw : String), cgCases lv sw cs =
       rw [hw1, hD1] at hR
       simp only [wSrc] at hR
       simp only [toSrcCases]
-      have := sw_case cx fuel env he endL s.loops s.cases st.waiting hs st.defaultOps d1 sL eB ops sa sb (.cons b0 br) n0 bp htest hP la ca ws hR
+      have := sw_case cx fuel env he endL s.loops s.cases st.waiting hs st.defaultOps d1 sL eB ops sa sb (.cons b0 br) n0 bp htest hP la ca ws
+        (hsb.trans e2.3) hR
         (fun hh k nt b => trCases_nodefault fuel (brkEnv env k) he.1 sw r k nt b (countDefaults_zero r (hcr hh)))
       simpa [caseName, hbn, hbp] using this
 end
